@@ -143,8 +143,8 @@ Fixpoint ids_eq (a b : list node) : bool :=
   end.
 
 (* SearchResult.has_same_tags: groups, lengths, then pairwise identity.
-   [fx = false]: the code before the fix: commit compared the groups with !=
-   (HedGroup.__eq__, by content); [fx = true]: the repaired code compares them
+   [fx = false]: behaviour before fix commit 81fa420: the groups were compared with !=
+   (HedGroup.__eq__, by content); [fx = true]: current code: they are compared
    by identity ([is not]). *)
 Definition has_same_tags (fx : bool) (r o : sres) : bool :=
   (if fx then Nat.eqb (gid r) (gid o) else group_eq (sr_chain r) (sr_chain o))
